@@ -74,7 +74,7 @@ CHECKS = {
          "DESIGN.md §4 C04"),
  "C05": ("model_checking",
          "bounded-exhaustive small-scope enumeration of (type, value) states in both directions against google.protobuf.json_format, plus lexical clauses checked by a JSON model that is validated against the reference on every case",
-         "betterproto's to_json is parsed by json_format.Parse and compared; json_format.MessageToJson is parsed by from_json and compared (values and Python types); to_dict output is checked against the mapping's lexical rules (json names, 64-bit as strings, base64, enum names, non-finite floats, RFC 3339 / decimal seconds).",
+         "betterproto's to_json is parsed by json_format.Parse and compared; json_format.MessageToJson - with default options and with preserving_proto_field_name, use_integers_for_enums, always_print_fields_with_no_presence - is parsed by from_json and compared (values and Python types); to_dict output is checked against the mapping's lexical rules (json names, 64-bit as strings, base64, enum names, non-finite floats, RFC 3339 / decimal seconds).",
          "trusts google.protobuf.json_format as the reference of the canonical mapping",
          "DESIGN.md §4 C05"),
  "C06": ("model_checking",
